@@ -152,7 +152,13 @@ def updateCIDRsAllocation (s : Sys) (name : String) (cidrs : List Cidr) (i : Nat
     let (al, _) := s.alloc.releaseAll i cidrs
     ({ s with alloc := al }, { res := "err" })
   | some n2 =>
-    if !n2.junk && n2.cidrs = cidrs then (s, { res := "ok" })
+    if !n2.junk && n2.cidrs = cidrs then
+      -- "we possibly updated this node and just failed to ack the success": the reservation is kept, and the node is
+      -- recorded as depending on the ClusterCIDR (after the repair of P24)
+      let al := match s.alloc.get? i with
+        | some c => s.alloc.set i (c.addAssoc name)
+        | none => s.alloc
+      ({ s with alloc := al }, { res := "ok" })
     else if n2.hasCidrs then
       match s.alloc.releaseAll i cidrs with
       | (al, true) => ({ s with alloc := al }, { res := "ok" })
